@@ -123,6 +123,15 @@ class C50(core.Prop):
                     labels.add("dict.set-replaces")
                 if name in ("set_ext", "get_ext", "remove") and "\x00" in op[1]:
                     labels.add("dict.binary-key-used")
+            # --- root-cause class of a known defect: xbt_dict_remove_ext compares keys with strncmp (set/get use memcmp),
+            # so a key with an embedded NUL also matches another entry of equal length and hash that agrees up to that NUL
+            if kind == "dict" and name in ("remove", "drain") and self._nul_twin(op, exp[i - 1][2] if i else []) and \
+                    (o.get("r") != e_r or o.get("n") != e_n or o.get("f", []) != e_f or ("c" in o and sorted(o["c"][:-1]) != e_c)):
+                oc.bad("dict:remove_ext:nul-key-compared-as-c-string",
+                       "op #%d %s returned %s and left %s entries, the model says %s and %d: the dict holds another key of the same "
+                       "length and hash that is equal up to the first NUL byte, and that entry was removed instead; %s"
+                       % (i, json.dumps(op), json.dumps(o.get("r")), o.get("n"), json.dumps(e_r), e_n, ctx(i)))
+                break
             # --- return value
             if name == "cursor":
                 self._check_cursor(oc, o, op, e_n, e_c, i, ctx)
@@ -191,6 +200,22 @@ class C50(core.Prop):
             oc.nontrivial = rs >= 1 and chain_removal
         oc.labels = sorted(labels)
         return oc
+
+    @staticmethod
+    def _nul_twin(op, content):
+        """does the dict (content before the op) hold a key that strncmp() confuses with one of the keys this op removes?"""
+        ks = [op[1]] if op[0] == "remove" else [op[1] + chr(op[2] + j) for j in range(op[3])]
+        present = [k for k, _ in content]
+        for k in ks:
+            if "\x00" not in k:
+                continue
+            kb = k.encode("utf-8")
+            cut = kb.index(b"\x00") + 1
+            for k2 in present:
+                k2b = k2.encode("utf-8")
+                if k2 != k and len(k2b) == len(kb) and k2b[:cut] == kb[:cut] and xbtc.djb2(k2) == xbtc.djb2(k):
+                    return True
+        return False
 
     def _check_cursor(self, oc, o, op, n, content, i, ctx):
         seen = o.get("r", [])
